@@ -9,6 +9,8 @@ STATIC_THEOREMS = [
     'SnapraidVerif.Props.C11.scan_order_independent',
     'SnapraidVerif.Props.C11.diff_reports_incomplete_sync',
     'SnapraidVerif.Props.C11.diff_silent_when_equal',
+    'SnapraidVerif.Props.C11.seq_scan_sound',
+    'SnapraidVerif.Props.C11.seq_changed_is_reread',
 ]
 
 def present_files(a):
@@ -28,6 +30,26 @@ def present_files(a):
                     ll[rel] = os.fsencode(os.readlink(p))
         files[d] = sorted(fl); links[d] = ll
     return files, links
+
+def walk_order(a, d, alpha):
+    """regular files of disk d in the order scan.c meets them: depth first, the entries of a directory sorted by
+    name (--test-force-order-alpha) or by inode number (every other order on a file system with persistent inodes)"""
+    base = os.fsencode(a.ddir(d))
+    out = []
+    def rec(dirp):
+        ents = []
+        for n in os.listdir(dirp):
+            st = os.lstat(os.path.join(dirp, n))
+            ents.append((n, st))
+        ents.sort(key=(lambda x: x[0]) if alpha else (lambda x: x[1].st_ino))
+        for n, st in ents:
+            q = os.path.join(dirp, n)
+            if stat.S_ISREG(st.st_mode):
+                out.append((os.path.relpath(q, base), st.st_size, st.st_mtime_ns // 10**9, st.st_mtime_ns % 10**9, st.st_ino, st.st_nlink))
+            elif stat.S_ISDIR(st.st_mode):
+                rec(q)
+    rec(base)
+    return out
 
 def ent(rel, size, sec, nsec, ino):
     return '%s:%d:%d:%d:%d' % (rel.hex() if rel else '-', size, sec, nsec, ino)
@@ -75,10 +97,11 @@ def scenario(exe, root, seed, stats):
     order = rng.choice(['--test-force-order-alpha', '--test-force-order-inode', '--test-force-order-dir', '--test-force-order-physical'])
     opts = [o for o in e2e.BASE_OPTS if not o.startswith('--test-force-order')] + [order]
     if rng.chance(1, 4): opts = [o for o in opts if o != '--test-fake-uuid']
+    if rng.chance(1, 2): opts = opts + ['--test-skip-multi-scan']
     a = e2e.Arr(root, exe, ndisks=1 + rng.below(3), nparity=1 + rng.below(2), ncontent=1, hashsize=16)
     s = sim.Sim(a, rng.fork(), weird_names=rng.chance(1, 2))
     s.populate(3 + rng.below(3))
-    cfg = 'ndisks=%d order=%s uuid=%s seed=%d' % (a.ndisks, order.split('-')[-1], '--test-fake-uuid' in opts, seed)
+    cfg = 'ndisks=%d order=%s uuid=%s scan=%s seed=%d' % (a.ndisks, order.split('-')[-1], '--test-fake-uuid' in opts, 'sequential' if '--test-skip-multi-scan' in opts else 'threads', seed)
     r = s.sync(opts=opts)
     for rnd in range(4):
         if not os.path.exists(a.contents[0]): break
@@ -92,28 +115,44 @@ def scenario(exe, root, seed, stats):
         d = s.run('diff', opts=opts)
         counts = {k: int(d.summary(k) or 0) for k in ('equal', 'added', 'removed', 'updated', 'moved', 'copied', 'restored')}
         maps = {m[0].decode('latin-1'): (i, m) for i, m in enumerate(dec.maps)}
-        allknown = []
+        def hashed(f):
+            return f['size'] > 0 and all(b[1] in ('b', 'p') for b in f['blocks'])
+        bydisk = {}
         for f in dec.files:
-            if all(b[1] in ('b', 'p') for b in f['blocks']) and f['size'] > 0:
-                allknown.append(ent(f['sub'], f['size'], f['sec'], (f['nsec'] - 1) if f['nsec'] else 0, f['inode']))
-        model = {'e': 0, 'm': 0, 'r': 0, 'u': 0, 'c': 0, 'a': 0, 'o': 0}
+            bydisk.setdefault(dec.maps[f['mapping']][0].decode('latin-1'), []).append(f)
+        model = {'e': 0, 'm': 0, 'r': 0, 'u': 0, 'c': 0, 'a': 0, 'o': 0, 'h': 0}
         removed = 0
         hardlinks = False
-        reqs, per = [], []
-        for disk in a.disks:
-            known = [f for f in dec.files if dec.maps[f['mapping']][0].decode('latin-1') == disk]
+        alpha = order.endswith('alpha')
+        seqscan = '--test-skip-multi-scan' in opts
+        carried = []      # copy sources left by the disks already scanned (sequential scan): (sub, size, sec, nsec, inode)
+        for di, disk in enumerate(a.disks):
+            known = bydisk.get(disk, [])
             uuid_ok = disk in maps and len(maps[disk][1][4]) > 0
-            pres = files[disk]
+            pres = walk_order(a, disk, alpha)
             if any(x[5] > 1 for x in pres): hardlinks = True
-            reqs.append('scan-classify %d K %s C %s P %s' % (1 if uuid_ok else 0,
-                        ' '.join(ent(f['sub'], f['size'], f['sec'], (f['nsec'] - 1) if f['nsec'] else 0, f['inode']) for f in known),
-                        ' '.join(allknown), ' '.join(ent(*x[:5]) for x in pres)))
-            per.append((disk, known, pres))
-        rep = vlib.driver_query([' '.join(q.split()) for q in reqs])
-        for (disk, known, pres), cl in zip(per, rep):
+            later = [f for dd in a.disks[di + 1:] for f in bydisk.get(dd, []) if hashed(f)]
+            if not seqscan:      # threads: every other disk is seen in its recorded state (up to the known race)
+                later = [f for dd in a.disks if dd != disk for f in bydisk.get(dd, []) if hashed(f)]
+            others = [ent(f['sub'], f['size'], f['sec'], (f['nsec'] - 1) if f['nsec'] else 0, f['inode']) for f in later] + (carried if seqscan else [])
+            q = 'scan-seq %d K %s O %s P %s' % (1 if uuid_ok else 0,
+                        ' '.join(ent(f['sub'], f['size'], f['sec'], (f['nsec'] - 1) if f['nsec'] else 0, f['inode']) + (':1' if hashed(f) else ':0') for f in known),
+                        ' '.join(others), ' '.join(ent(*x[:5]) for x in pres))
+            ans = vlib.driver_query([' '.join(q.split())])[0]
+            parts = ans.split(' ') if ans != 'bad-op' else ['', '0', '']
+            if parts[0].isdigit(): parts = [''] + parts      # no present entry at all
+            while len(parts) < 4: parts.append('')
+            cl, rem, remidx = parts[0], parts[1], parts[2]
+            fpaths = parts[3].split(',') if parts[3] else []
             for c in cl: model[c] += 1
-            kept = sum(1 for c in cl if c in 'emruo')
-            removed += len(known) - kept
+            removed += int(rem or 0)
+            gone = set(int(x) for x in remidx.split(',') if x)
+            for i, f in enumerate(known):
+                if hashed(f) and i not in gone:
+                    sub = bytes.fromhex(fpaths[i]) if i < len(fpaths) and fpaths[i] not in ('', '-') else f['sub']
+                    carried.append(ent(sub, f['size'], f['sec'], (f['nsec'] - 1) if f['nsec'] else 0, f['inode']))
+            for c, x in zip(cl, pres):
+                if c in 'co' and x[1] > 0: carried.append(ent(*x[:5]))
         stats['diffs'] += 1
         for k2, v in model.items(): stats['classes'][k2] = stats['classes'].get(k2, 0) + v
         link_changed = False
@@ -140,8 +179,11 @@ def scenario(exe, root, seed, stats):
             for k3, v3 in lk.items(): mine[k3] += v3
             if mine != counts:
                 stats['counter_mismatch'] += 1
-                if os.environ.get('VERIF_C11_STRICT'):
-                    problem = 'diff counters %s, Lean classification %s' % (counts, mine)
+                race = all(mine[k] == counts[k] for k in ('equal', 'removed', 'moved', 'restored')) and not seqscan
+                if not race:
+                    problem = '[counters] diff counts %s, the sequential Lean scan model (same walk order%s) %s' % (counts, ', disks one after the other' if seqscan else '', mine)
+                else:
+                    stats['copy_race_seen'] = stats.get('copy_race_seen', 0) + 1
         # ---- changed files are re-read rather than trusted: state recorded right after the scan
         if not problem and rng.chance(1, 2):
             work = root + '.w'
